@@ -175,12 +175,3 @@ Fixpoint failures_aux (cs : list c10_case) (n : nat) : list (nat * bool * bool) 
     if a && m then failures_aux r (S n) else (n, a, m) :: failures_aux r (S n)
   end.
 Definition failures (cs : list c10_case) := failures_aux cs 0.
-
-(** What the model decides, for the coverage report: per split case, the
-    number of (percentage, request) decisions on the rollout side. *)
-Definition model_rollout_count (c : c10_case) : N :=
-  match c with
-  | CaseSplit allow pcts reqs _ =>
-    sumN (map (fun p => sumN (map (fun lines => side_code (pick true (Some (mkSplit p allow)) lines)) reqs)) pcts)
-  | _ => 0
-  end.
